@@ -1164,33 +1164,69 @@ fn classify(out: &ExecOutcome) -> Option<(String, CallKind)> {
 
 /// keep the violation while making the schedule as sequential as possible
 fn minimise(pool: &Pool, reference: &Reference, plan: &SchedPlan, out: &ExecOutcome, clause: &str) -> (SchedPlan, ExecOutcome) {
+    // the budget is counted in simulated steps (hook points + decisions), not in wall-clock and not
+    // in executions: pools with a signature-dense file cost a hundred times more per execution
+    let mut steps_left: i64 = 12_000_000;
+    let mut execs_left: i32 = 120;
+    let mut run = |p: &SchedPlan, steps_left: &mut i64, execs_left: &mut i32| -> Option<ExecOutcome> {
+        if *steps_left <= 0 || *execs_left <= 0 {
+            return None;
+        }
+        let o = execute(pool, reference, p);
+        *steps_left -= (o.hook_points + o.decisions) as i64 + 1;
+        *execs_left -= 1;
+        Some(o)
+    };
+    let same = |o: &ExecOutcome| classify(o).map(|c| c.0) == Some(clause.to_string());
     let mut best_plan = plan.clone();
     best_plan.explicit = Some(out.schedule.clone());
-    let mut best_out = execute(pool, reference, &best_plan);
-    if classify(&best_out).map(|c| c.0) != Some(clause.to_string()) {
+    let mut best_out = match run(&best_plan, &mut steps_left, &mut execs_left) {
+        Some(o) if same(&o) => o,
         // explicit replay of the recorded schedule must reproduce; if not, report the seeded plan
-        return (plan.clone(), execute(pool, reference, plan));
-    }
-    let mut budget = 160;
+        _ => return (plan.clone(), execute(pool, reference, plan)),
+    };
     // 1. truncate the schedule (stay on the current thread afterwards)
     let mut len = best_out.schedule.len();
-    while budget > 0 && len > 1 {
+    while len > 1 {
         let cut = len / 2;
         let mut cand = best_plan.clone();
         cand.explicit = Some(best_out.schedule[..cut].to_vec());
-        budget -= 1;
-        let o = execute(pool, reference, &cand);
-        if classify(&o).map(|c| c.0) == Some(clause.to_string()) {
-            best_plan = cand;
-            best_out = o;
-            len = cut;
-        } else {
-            break;
+        match run(&cand, &mut steps_left, &mut execs_left) {
+            Some(o) if same(&o) => {
+                best_plan = cand;
+                best_out = o;
+                len = cut;
+            }
+            _ => break,
         }
     }
-    // 1b. remove individual context switches (later ones first): "stay on the current thread"
+    // 2. drop calls from the end of each script
+    let mut changed = true;
+    while changed {
+        changed = false;
+        for t in 0..best_plan.threads.len() {
+            if best_plan.threads[t].len() <= 1 {
+                continue;
+            }
+            let mut cand = best_plan.clone();
+            cand.threads[t].pop();
+            match run(&cand, &mut steps_left, &mut execs_left) {
+                Some(o) if same(&o) => {
+                    best_plan = cand;
+                    best_out = o;
+                    changed = true;
+                }
+                Some(_) => {}
+                None => {
+                    changed = false;
+                    break;
+                }
+            }
+        }
+    }
+    // 3. remove individual context switches (later ones first): "stay on the current thread"
     let mut i = best_out.schedule.len();
-    while budget > 0 && i > 1 {
+    while i > 1 {
         i -= 1;
         let sched = best_plan.explicit.clone().unwrap_or_default();
         if i >= sched.len() || sched[i] == sched[i - 1] {
@@ -1200,32 +1236,16 @@ fn minimise(pool: &Pool, reference: &Reference, plan: &SchedPlan, out: &ExecOutc
         let mut ex = sched.clone();
         ex[i] = ex[i - 1];
         cand.explicit = Some(ex);
-        budget -= 1;
-        let o = execute(pool, reference, &cand);
-        if classify(&o).map(|c| c.0) == Some(clause.to_string()) && o.switches < best_out.switches {
-            best_plan = cand;
-            best_plan.explicit = Some(o.schedule.clone());
-            i = i.min(o.schedule.len());
-            best_out = o;
-        }
-    }
-    // 2. drop calls from the end of each script
-    let mut changed = true;
-    while changed && budget > 0 {
-        changed = false;
-        for t in 0..best_plan.threads.len() {
-            if best_plan.threads[t].len() <= 1 || budget == 0 {
-                continue;
+        match run(&cand, &mut steps_left, &mut execs_left) {
+            Some(o) => {
+                if same(&o) && o.switches < best_out.switches {
+                    best_plan = cand;
+                    best_plan.explicit = Some(o.schedule.clone());
+                    i = i.min(o.schedule.len());
+                    best_out = o;
+                }
             }
-            let mut cand = best_plan.clone();
-            cand.threads[t].pop();
-            budget -= 1;
-            let o = execute(pool, reference, &cand);
-            if classify(&o).map(|c| c.0) == Some(clause.to_string()) {
-                best_plan = cand;
-                best_out = o;
-                changed = true;
-            }
+            None => break,
         }
     }
     (best_plan, best_out)
